@@ -30,6 +30,7 @@ type seriesSelector struct {
 	hints    storage.SelectHints
 
 	once   sync.Once
+	err    error
 	series []SignedSeries
 }
 
@@ -49,10 +50,9 @@ func (o *seriesSelector) Matchers() []*labels.Matcher {
 }
 
 func (o *seriesSelector) GetSeries(ctx context.Context, shard int, numShards int) ([]SignedSeries, error) {
-	var err error
-	o.once.Do(func() { err = o.loadSeries(ctx) })
-	if err != nil {
-		return nil, err
+	o.once.Do(func() { o.err = o.loadSeries(ctx) })
+	if o.err != nil {
+		return nil, o.err
 	}
 
 	return seriesShard(o.series, shard, numShards), nil
